@@ -98,6 +98,7 @@ def main():
     broken = []          # names of obligations / correspondences that no longer check
 
     # 1. tables + proofs
+    lock = lib.build_lock(); lock.__enter__()
     rc, out = lib.gen_tables()
     if rc != 0: broken.append('translator: gen_tables failed: ' + out[-300:])
     theorems = pinned_theorems(prop)
@@ -129,6 +130,7 @@ def main():
         if not m or m.group(1).strip() != '<none>': broken.append('coqchk: ' + cov['coqchk_axioms'][:300])
     bad = hygiene()
     if bad: broken.append('hygiene: ' + '; '.join(bad[:5]))
+    cov['tables'] = lib.tables_status()      # per table: read in the source / probed from behaviour / not recognised
     cov['obligations'] = len(obligations); cov['discharged'] = discharged
     cov['theorems'] = obligations
     cov['samples_obligations'] = obligations[:3]
@@ -151,6 +153,7 @@ def main():
     ok, out = lib.build_model()
     if not ok:
         log(out); print('model build failed'); sys.exit(2)
+    lock.__exit__()
 
     # 3. cases
     rnd = random.Random(seed)
